@@ -153,4 +153,11 @@ theorem late_finalisation_poisons_current :
     ((({} : Obj).connect.connect).run .captured [.exit 0]).view = some {} := by
   decide
 
+/-- Objects that survive `connect()` (attributes of the WebSocket itself: URL parts, protocols, the list of custom headers, ...)
+    are never mutated in place by the library: the only in-place mutation of such an attribute - or of a local name bound to one
+    without a copy - in any method other than `__init__` is `add_header` appending to `_headers`, which is an application call.
+    In particular `build_request` works on a copy of the custom-header list (seeded change C16-r4m2 aliased it: every reconnect
+    then repeated the standard headers, and the stale keys, of all earlier requests).  Re-extracted from the source on every run. -/
+theorem surviving_objects_not_mutated_in_place : Gen.wsInPlaceMutations = [("add_header", "self._headers")] := by decide
+
 end Lomond.C17
